@@ -6,7 +6,7 @@ module in place; all of them preserve behaviour by construction:
   rename_locals   alpha-renaming: every function-local variable that is not a
                   parameter, not global/nonlocal and not referenced from a
                   nested scope (closure, lambda, comprehension, class body) gets
-                  the suffix `_r`.  Parameters keep their names (keyword API).
+                  an opaque new name `v<k>_`.  Parameters keep their names (keyword API).
   flip_branches   `if c: A else: B` -> `if not c: B else: A` for every two-armed
                   `if` whose else arm is not an `elif` chain.
   reverse_kwargs  keyword arguments of every call in reverse order (positional
@@ -113,14 +113,23 @@ def _mentioned_in_nested_scopes(fn: ast.AST) -> Set[str]:
 class _Renamer(ast.NodeTransformer):
     """Renames Name nodes of the chosen identifiers inside ONE function body, not descending
     into nested function / lambda / class / comprehension scopes (the chosen names do not
-    occur there by construction)."""
+    occur there by construction).  The new names are opaque (`v1_`, `v2_`, ...): nothing of
+    the old spelling survives, so a rule that recognises a variable by a substring of its
+    name fails this rewrite."""
 
-    def __init__(self, names: Set[str]):
+    def __init__(self, names: Set[str], taken: Set[str] = frozenset()):
         self.names = names
+        self.map: Dict[str, str] = {}
+        k = 0
+        for n in sorted(names):
+            k += 1
+            while f"v{k}_" in taken:
+                k += 1
+            self.map[n] = f"v{k}_"
 
     def visit_Name(self, node):
         if node.id in self.names:
-            return ast.copy_location(ast.Name(id=node.id + "_r", ctx=node.ctx), node)
+            return ast.copy_location(ast.Name(id=self.map[node.id], ctx=node.ctx), node)
         return node
 
     def visit_FunctionDef(self, node):
@@ -140,7 +149,7 @@ class _Renamer(ast.NodeTransformer):
 
     def visit_ExceptHandler(self, node):
         if node.name in self.names:
-            node.name = node.name + "_r"
+            node.name = self.map[node.name]
         self.generic_visit(node)
         return node
 
@@ -167,7 +176,10 @@ def rename_locals(scratch: str) -> List[str]:
             # names used by exec-like or locals() tricks do not occur in this code base
             if not names:
                 continue
-            r = _Renamer(names)
+            taken = {y.id for y in ast.walk(fn) if isinstance(y, ast.Name)} | \
+                {a.arg for y in ast.walk(fn) if isinstance(y, ast.arguments)
+                 for a in y.posonlyargs + y.args + y.kwonlyargs}
+            r = _Renamer(names, taken)
             fn.body = [r.visit(st) for st in fn.body]
         return tree
     return _rewrite(scratch, transform)
@@ -205,3 +217,32 @@ class _KwReverser(ast.NodeTransformer):
 
 def reverse_kwargs(scratch: str) -> List[str]:
     return _rewrite(scratch, lambda tree, src, full: _KwReverser().visit(tree))
+
+
+# ------------------------------------------------------------------ compare
+_SWAP = {ast.Lt: ast.Gt, ast.Gt: ast.Lt, ast.LtE: ast.GtE, ast.GtE: ast.LtE,
+         ast.Eq: ast.Eq, ast.NotEq: ast.NotEq}
+
+
+class _CmpSwapper(ast.NodeTransformer):
+    def visit_Compare(self, node):
+        self.generic_visit(node)
+        if len(node.ops) == 1 and type(node.ops[0]) in _SWAP:
+            return ast.copy_location(
+                ast.Compare(left=node.comparators[0], ops=[_SWAP[type(node.ops[0])]()],
+                            comparators=[node.left]), node)
+        return node
+
+
+def swap_comparisons(scratch: str) -> List[str]:
+    """`a < b` -> `b > a`, `a == b` -> `b == a`, ... for every single comparison (`is`, `in`
+    and chained comparisons untouched).  Operands in this code base are side-effect free."""
+    return _rewrite(scratch, lambda tree, src, full: _CmpSwapper().visit(tree))
+
+
+def all_rewrites(scratch: str) -> List[str]:
+    """The four rewrites applied one after the other."""
+    out = []
+    for f in (rename_locals, flip_branches, swap_comparisons, reverse_kwargs):
+        out = f(scratch)
+    return out
